@@ -71,6 +71,19 @@ add("From:enum_explicit", STD_DERIVES + " #[derive(derive_more::From)] pub enum 
     ['format!("{:?}|{:?}|{:?}", <M::T as ::core::convert::From<u8>>::from(1), <M::T as ::core::convert::From<i16>>::from(2), <M::T as ::core::convert::From<()>>::from(()))'])
 add("Into:struct", STD_DERIVES + " #[derive(derive_more::Into)] #[into(owned, ref, ref_mut)] pub struct T(pub i32, #[into(skip)] pub u8, pub u8);",
     ['format!("{:?}|{:?}", <(i32, u8) as ::core::convert::From<M::T>>::from(M::T(1, 2, 3)), <(&i32, &u8) as ::core::convert::From<&M::T>>::from(&M::T(1, 2, 3)))'])
+# fields whose own type is a tuple / unit / array (a sole tuple-typed field must not be taken apart)
+add("Into:tuple_field", STD_DERIVES + " #[derive(derive_more::Into)] #[into(owned, ref, ref_mut)] pub struct T(pub (i32, u8));",
+    ['format!("{:?}", <(i32, u8) as ::core::convert::From<M::T>>::from(M::T((1, 2))))',
+     'format!("{:?}", <&(i32, u8) as ::core::convert::From<&M::T>>::from(&M::T((3, 4))))'])
+add("Into:tuple_field_skip", STD_DERIVES + " #[derive(derive_more::Into)] pub struct T(#[into(skip)] pub bool, pub (i32, i64));",
+    ['format!("{:?}", <(i32, i64) as ::core::convert::From<M::T>>::from(M::T(true, (1, 2))))'])
+add("From:tuple_field", STD_DERIVES + " #[derive(derive_more::From)] pub struct T(pub (i32, u8));",
+    ['format!("{:?}", <M::T as ::core::convert::From<(i32, u8)>>::from((1, 2)))'])
+add("From:tuple_fields2", STD_DERIVES + " #[derive(derive_more::From, derive_more::Into)] pub struct T(pub (i32, u8), pub [u8; 2]);",
+    ['format!("{:?}", <M::T as ::core::convert::From<((i32, u8), [u8; 2])>>::from(((1, 2), [3, 4])))',
+     'format!("{:?}", <((i32, u8), [u8; 2]) as ::core::convert::From<M::T>>::from(M::T((1, 2), [3, 4])))'])
+add("Constructor:tuple_field", STD_DERIVES + " #[derive(derive_more::Constructor)] pub struct T(pub (i32, u8), pub ());",
+    ['format!("{:?}", M::T::new((1, 2), ()))'])
 add("Into:types", STD_DERIVES + " #[derive(derive_more::Into)] #[into(i64, i128)] pub struct T(pub i32);", ['format!("{:?}", <i128 as ::core::convert::From<M::T>>::from(M::T(9)))'])
 add("Constructor", STD_DERIVES + " #[derive(derive_more::Constructor)] pub struct T { pub a: i32, pub b: u8 }", ['format!("{:?}", M::T::new(1, 2))'])
 add("FromStr:newtype", STD_DERIVES + " #[derive(derive_more::FromStr)] pub struct T(pub i32);",
@@ -98,6 +111,21 @@ add("IntoIterator", f"#[derive(derive_more::IntoIterator)] #[into_iterator(owned
     ['{ let t = M::T(::std::vec![1, 2]); let a: ::std::vec::Vec<&u8> = ::core::iter::IntoIterator::into_iter(&t).collect(); let n = a.len(); let b: ::std::vec::Vec<u8> = ::core::iter::IntoIterator::into_iter(t).collect(); format!("{}|{:?}", n, b) }'])
 add("AsRef", f"#[derive(derive_more::AsRef, derive_more::AsMut)] pub struct T {{ #[as_ref] #[as_mut] pub v: {VEC}, pub o: u8 }}",
     [f'{{ let mut t = M::T {{ v: ::std::vec![1], o: 0 }}; ::core::convert::AsMut::<{VEC}>::as_mut(&mut t).push(2); format!("{{:?}}", ::core::convert::AsRef::<{VEC}>::as_ref(&t)) }}'])
+# unsized last fields (`str`, `[u8]`): values exist behind references only (repr(transparent) + a pointer cast)
+UNSZ = "unsafe {{ &*({v} as *const {inner} as *const M::T) }}"
+add("AsRef:unsized_types", "#[derive(derive_more::AsRef)] #[as_ref([u8], str)] #[repr(transparent)] pub struct T(pub str);",
+    ['format!("{:?}|{}", <M::T as ::core::convert::AsRef<[u8]>>::as_ref(' + UNSZ.format(v='"abc"', inner="str") + '), '
+     '<M::T as ::core::convert::AsRef<str>>::as_ref(' + UNSZ.format(v='"abc"', inner="str") + '))'])
+add("AsRef:unsized_field", "#[derive(derive_more::AsRef)] #[repr(transparent)] pub struct T(#[as_ref] pub [u8]);",
+    ['format!("{:?}", <M::T as ::core::convert::AsRef<[u8]>>::as_ref(' + UNSZ.format(v="&[1u8, 2][..]", inner="[u8]") + '))'])
+add("AsRef:unsized_forward", "#[derive(derive_more::AsRef)] #[as_ref(forward)] #[repr(transparent)] pub struct T(pub str);",
+    ['format!("{:?}", <M::T as ::core::convert::AsRef<[u8]>>::as_ref(' + UNSZ.format(v='"ab"', inner="str") + '))'])
+add("Deref:unsized", "#[derive(derive_more::Deref)] #[repr(transparent)] pub struct T(pub str);",
+    ['format!("{}", ::core::ops::Deref::deref(' + UNSZ.format(v='"abc"', inner="str") + '))'])
+add("Index:unsized", "#[derive(derive_more::Index)] #[repr(transparent)] pub struct T(pub [u8]);",
+    ['format!("{}", ' + UNSZ.format(v="&[7u8, 8][..]", inner="[u8]") + '[1])'])
+add("Display:unsized", "#[derive(derive_more::Display, derive_more::Debug)] #[repr(transparent)] pub struct T(pub str);",
+    ['format!("{}|{:?}", ' + UNSZ.format(v='"abc"', inner="str") + ', ' + UNSZ.format(v='"abc"', inner="str") + ')'])
 add("AsRef:forward", f"#[derive(derive_more::AsRef, derive_more::AsMut)] #[as_ref(forward)] #[as_mut(forward)] pub struct T(pub {VEC});",
     ['{ let t = M::T(::std::vec![1, 2]); format!("{:?}", ::core::convert::AsRef::<[u8]>::as_ref(&t)) }'])
 add("AsRef:types", f"#[derive(derive_more::AsRef, derive_more::AsMut)] #[as_ref([u8], {VEC})] #[as_mut([u8], {VEC})] pub struct T(pub {VEC});",
